@@ -389,10 +389,9 @@ def EnvironmentalScore_ok_core (r0 : Nat) (r1 : Nat) (r2 : Nat) (r3 : Nat) (r4 :
   F64.flet (F64.mul (F64.mul (F64.mul (F64.mul (0x402070a3d70a3d71 : Nat) (GenK31.attackVector mav)) (GenK31.attackComplexity mac)) (GenK31.privilegesRequired mpr ms)) (GenK31.userInteraction mui)) fun modifiedExploitability =>
   cond (F64.le modifiedImpact (0x0000000000000000 : Nat))
     (okResult)
-    (F64.flet (F64.add modifiedImpact modifiedExploitability) fun sum =>
-    cond (Nat.beq ms (0 : Nat))
+    (cond (Nat.beq ms (0 : Nat))
       (okResult)
-      (F64.flet (F64.min (F64.mul (0x3ff147ae147ae148 : Nat) sum) (0x4024000000000000 : Nat)) fun r =>
+      (F64.flet (F64.min (F64.mul (0x3ff147ae147ae148 : Nat) (F64.add modifiedImpact modifiedExploitability)) (0x4024000000000000 : Nat)) fun r =>
       okResult))
 
 def EnvironmentalScore_ok (u0 : Nat) (u1 : Nat) (u2 : Nat) (u3 : Nat) (u4 : Nat) (u5 : Nat) : Bool :=
